@@ -22,9 +22,12 @@ import re
 import sys
 
 
+sys.path.insert(0, os.path.dirname(os.path.abspath(__file__)))
+from _exec import ShapeMismatch, dump  # noqa: E402
+
+
 def die(msg):
-    print(f"gen/accessors.py: shape mismatch: {msg}")
-    sys.exit(1)
+    raise ShapeMismatch(msg)
 
 
 def lean_chars(s):
@@ -72,11 +75,7 @@ def squash(s):
     return " ".join(s.split())
 
 
-def main():
-    if len(sys.argv) != 3:
-        print("usage: accessors.py <repo> <outdir>")
-        sys.exit(2)
-    repo, outdir = sys.argv[1], sys.argv[2]
+def extract(repo):
     vdir = os.path.join(repo, "src/haystack/val")
     files = sorted(glob.glob(os.path.join(vdir, "*.rs")))
     if not files:
@@ -164,6 +163,33 @@ def main():
         if g not in gnames:
             die(f"{fn}: calls self.{g}, which is not a dict_get! getter")
 
+    return try_froms, getters, keyed
+
+
+def by_execution():
+    d = dump("c19")
+    if d is None:
+        return None
+    return [tuple(x) for x in d["tryFroms"]], [tuple(x) for x in d["getters"]], [tuple(x) for x in d["keyedGetters"]]
+
+
+def main():
+    if len(sys.argv) != 3:
+        print("usage: accessors.py <repo> <outdir>")
+        sys.exit(2)
+    repo, outdir = sys.argv[1], sys.argv[2]
+    how = "source text"
+    try:
+        tables = extract(repo)
+    except ShapeMismatch as e:
+        tables = by_execution()
+        if tables is None:
+            print(f"gen/accessors.py: shape mismatch: {e}")
+            sys.exit(1)
+        how = "execution"
+        print(f"FALLBACK accessors: val/*.rs no longer has the parsed shape ({e}); tables taken from `hsverif dump c19` (every typed conversion and getter executed on a value of each variant)")
+    try_froms, getters, keyed = tables
+
     def triples(name, doc, tbl):
         out = [f"/-- {doc} -/", f"def {name} : List (List Char × List Char × List Char) := ["]
         out.append(",\n".join(f"  ({lean_chars(a)}, {lean_chars(b)}, {lean_chars(c)})" for a, b, c in tbl))
@@ -181,7 +207,7 @@ def main():
     out = os.path.join(outdir, "Accessors.lean")
     if not (os.path.exists(out) and open(out, encoding="utf-8").read() == text):
         open(out, "w", encoding="utf-8").write(text)
-    print(f"gen/accessors.py: {len(try_froms)} TryFrom<&Value> impls, {len(getters)} dict getters, {len(keyed)} keyed -> {out}")
+    print(f"gen/accessors.py ({how}): {len(try_froms)} TryFrom<&Value> impls, {len(getters)} dict getters, {len(keyed)} keyed -> {out}")
 
 
 if __name__ == "__main__":
